@@ -166,12 +166,12 @@ def main():
       else:
           zcol = ""
       rows.append((sid, SUMMARY.get(sid, ""), fcol, "yes" if own in fired else "no", ", ".join(others) or "-", ", ".join(inc) or "-", zcol))
-  print("| seeded change | what it does | first measurement (rounds 4-6: machinery as tagged before the change was looked at) | full matrix: own check | full matrix: also fired | full matrix: inconclusive | final machinery: own check |")
+  print("| seeded change | what it does | first measurement (rounds 4-7: machinery as tagged before the change was looked at) | full matrix: own check | full matrix: also fired | full matrix: inconclusive | final machinery: own check |")
   print("|---|---|---|---|---|---|---|")
   for r in rows:
       print("| %s | %s | %s | %s | %s | %s | %s |" % r)
   print()
-  print("Totals: %(n)d changes. Full matrix (all 20 quick checks per change; for rounds 5 and 6 this IS the first measurement): own check fired on %(m_own)d, some check on %(m_any)d. First measurements (rounds 4, 5 and 6, %(f_n)d changes): own check %(f_own)d, some check %(f_any)d. Final machinery, own check only (%(z_n)d changes): fired on %(z_own)d." % tot)
+  print("Totals: %(n)d changes. Full matrix (all 20 quick checks per change; for rounds 5, 6 and 7 this IS the first measurement; round 7: all 20 checks for C06/C09/C14/C17-r7, only the own check for C02/C07/C13/C16-r7): own check fired on %(m_own)d, some check on %(m_any)d. First measurements (rounds 4, 5, 6 and the 8 changes of round 7, %(f_n)d changes): own check %(f_own)d, some check %(f_any)d. Final machinery, own check only (%(z_n)d changes): fired on %(z_own)d." % tot)
 
 
 if __name__ == "__main__":
